@@ -12,4 +12,4 @@ func isBudgetPanic(r any) bool {
 	_, ok := r.(engine.VerifBudgetExceeded)
 	return ok
 }
-func abortRun()             { engine.VerifAbort() }
+func abortRun() { engine.VerifAbort() }
